@@ -6,7 +6,11 @@ let read_lines (f : string -> unit) : unit =
   try while true do f (input_line stdin) done with End_of_file -> ()
 let mismatches = ref 0
 let max_report = 50
+(* the print budget is per kind: differences from the model of the code must not crowd out violations of the specification *)
+let reported : (string, int) Hashtbl.t = Hashtbl.create 7
 let report kind case impl expected =
   incr mismatches;
-  if !mismatches <= max_report then
+  let k = (try Hashtbl.find reported kind with Not_found -> 0) + 1 in
+  Hashtbl.replace reported kind k;
+  if k <= max_report then
     Printf.printf "MISMATCH\t%s\t%s\t%s\t%s\n" kind case impl expected
